@@ -26,7 +26,7 @@ type Dom[T comparable] struct {
 	Alpha []T
 	Probe []T // values not in Alpha (between neighbours, below min, above max)
 	Wide  func(r *core.R) T
-	Cmps  []NamedCmp[T] // [0] natural, [1] reversed, [2] coarsened (many-to-one)
+	Cmps  []NamedCmp[T] // [0] natural, [1] reversed, [2] coarsened (many-to-one), [3] natural with un-normalised results
 	Fmt   func(T) string
 }
 
@@ -42,12 +42,16 @@ var intCmps = []NamedCmp[int]{
 	{"natural", func(a, b int) int { return cmp.Compare(a, b) }},
 	{"reversed", func(a, b int) int { return cmp.Compare(b, a) }},
 	{"coarse12", func(a, b int) int { return cmp.Compare(floorDiv(a, 12), floorDiv(b, 12)) }},
+	// a valid order whose results are not normalised to -1/0/+1 (like a-b,
+	// but without overflow): only the sign carries meaning
+	{"natural-unnormalised", func(a, b int) int { return cmp.Compare(a, b) * (1 + int((uint64(a)^uint64(b))%1000)) }},
 }
 
 var strCmps = []NamedCmp[string]{
 	{"natural", func(a, b string) int { return strings.Compare(a, b) }},
 	{"reversed", func(a, b string) int { return strings.Compare(b, a) }},
 	{"caseless", func(a, b string) int { return strings.Compare(strings.ToLower(a), strings.ToLower(b)) }},
+	{"natural-unnormalised", func(a, b string) int { return strings.Compare(a, b) * (1 + 97*(len(a)+len(b))) }},
 }
 
 // IntDom: alphabet values are spaced by 6 so that probes strictly between
